@@ -47,7 +47,7 @@ pub fn unsupported_%d() {
     gen.write_gen("c14_list.rs", "\n".join(code) + "\n")
     return {
         "harnesses": hs,
-        "groups": {"stub": {"features": ["c14"], "timeout_s": 2400, "kani_args": ["-Z", "stubbing"]}},
+        "groups": {"stub": {"features": ["c14"], "est_gb": 7, "timeout_s": 2400, "kani_args": ["-Z", "stubbing"]}},
         "smt": {"mode": "dispatch", "queries": [{"name": "m::dispatch::%s" % q} for q in ("from_message_frame_table", "number_table", "build_message_table", "facts")]},
         "level": "model_checking",
         "solver": "M: z3 4.8.12 + cvc5 1.0 over the switch tables read from the MIR; K: CBMC 6.11 + CaDiCaL via Kani",
